@@ -290,6 +290,10 @@ macro_rules! point_systems {
                     lists.push((0..len).map(|j| (j * (2 * v + 1) + v + j / 5) % 4).collect());
                 }
             }
+            // ... and a few lengths around and beyond 2^14 (a block size of a chunked summation; a remainder forgotten)
+            for len in [16383usize, 16384, 16385, 20000, 32769, 65537] {
+                lists.push((0..len).map(|j| (j * 3 + j / 7) % 4).collect());
+            }
             rep.cases(
                 concat!("centroid/", stringify!($Pt)),
                 D::NAME,
